@@ -396,10 +396,63 @@ def gen_traces(prop, tier, rng, core, util, budget_events):
                 t["prefix_of"] = len(traces)  # index of the whole-stream trace in `traces`
                 t["cut"] = c
                 group.append(t)
+        if rng.random() < .25:
+            group += history_group(core, util, rng, p, maxn, prop)
         for t in group:
             events += len(t["ev"])
         traces.extend(group)
     return traces
+
+
+def history_group(core, util, rng, p, maxn, prop):
+    """ONE tokenizer object used for several streams (C01-C04 hold for every run of a tokenizer, not only the first):
+    'sequential' = each run consumed before the next is requested, the earlier streams ending exactly on a max_length cut
+    half of the time; 'upfront' = all generators requested first, then consumed one after the other."""
+    cur = {"ev": None}
+
+    def val(f):
+        cur["ev"].append({"e": "V", "v": bool(f[1])})
+        return f[1]
+
+    class Src(util.DataSource):
+        def __init__(s_, stream, ev):
+            s_.s, s_.i, s_.ev = stream, 0, ev
+
+        def read(s_):
+            cur["ev"] = s_.ev
+            if s_.i >= len(s_.s):
+                s_.ev.append({"e": "EOS"})
+                return None
+            s_.ev.append({"e": "R", "v": bool(s_.s[s_.i])})
+            s_.i += 1
+            return (s_.i - 1, s_.s[s_.i - 1])
+    tk = core.StreamTokenizer(val, p["min"], p["max"], p["sil"], init_min=p["imin"], init_max_silence=p["isil"], mode=mode_of(p))
+    streams = []
+    for k in range(rng.randint(2, 3)):
+        n = rng.randint(0, min(maxn, 30))
+        s = rand_stream(rng, p, n, prop)
+        if rng.random() < .5:
+            s = [False] * rng.randint(0, 2) + [True] * (p["max"] * rng.randint(1, 2))       # ends exactly on a cut
+        elif rng.random() < .5:
+            s = [True] * rng.randint(1, max(1, p["min"])) + [False] * (p["sil"] + 2) + s    # starts with a short burst
+        streams.append(s)
+    style = rng.choice(["sequential", "upfront"])
+    evs = [[] for _ in streams]
+    out = []
+    gens = [tk.tokenize(Src(s, ev), generator=True) for s, ev in zip(streams, evs)] if style == "upfront" else None
+    for k, (s, ev) in enumerate(zip(streams, evs)):
+        cur["ev"] = ev
+        try:
+            g = gens[k] if gens else tk.tokenize(Src(s, ev), generator=True)
+            for data, a, b in g:
+                ev.append({"e": "T", "s": a, "t": b, "fr": [d[0] for d in data]})
+            ev.append({"e": "END"})
+        except Exception as exc:  # noqa
+            ev.append({"e": "EXC", "cls": type(exc).__name__})
+        fresh = core.StreamTokenizer(lambda f: f[1], p["min"], p["max"], p["sil"], init_min=p["imin"], init_max_silence=p["isil"], mode=mode_of(p))
+        peer = [[a, b] for _, a, b in fresh.tokenize(Src(s, []))]
+        out.append({"p": p, "mode": "gen", "peer": peer, "ev": ev, "ftype": "tuple", "vkind": f"reused tokenizer ({style}, run {k + 1})"})
+    return out
 
 
 def prefix_consistent(whole, pref, p):
